@@ -77,7 +77,10 @@ class AbsPDF:
 
     @contextlib.contextmanager
     def temp_params(self, var):
-        params = self.get_params()
+        # save the variables' own values (get_params would return masked ones)
+        params = {
+            k: self.vm.get(k, val_in_fit=False) for k in self.vm.variables
+        }
         try:
             self.set_params(var)
             yield var
